@@ -410,6 +410,35 @@ func runC04(c *core.Ctx) {
 			}
 		}
 	}
+	// (5b) a valid string with something in front of it or behind it (round 6): for valid strings of every total length
+	// 8..90 with hrp lengths 1, 2, 40, 83 - tails and heads of 1..6 characters (charset characters, the string's own last
+	// characters again, a separator, upper case); judged by the reference, so a lengthened string that happens to be valid counts as valid
+	for _, hl := range []int{1, 2, 40, 83} {
+		for total := hl + 7; total <= 90; total++ {
+			n := total - hl - 7
+			if total < 86 && n%8 != 0 && n%8 != 5 {
+				continue
+			}
+			sym := make([]byte, n)
+			for i := range sym {
+				sym[i] = byte(i*7+hl) & 31
+			}
+			if n > 0 {
+				sym[n-1] &= 16 // keeps short paddings zero where the length allows a valid regrouping
+			}
+			v := mkValid(strings.Repeat("x", hl), sym)
+			for _, t := range []string{"q", "p", "l", "qq", "qqqqqq", v[len(v)-1:], v[len(v)-6:], "1", "1q", "Q", "qpzry9"} {
+				for k := 1; k <= len(t); k++ {
+					if c04Judge(c, v+t[:k], "valid-prefix-plus-tail") {
+						nontriv++
+					}
+				}
+				if c04Judge(c, t+v, "head-plus-valid-suffix") {
+					nontriv++
+				}
+			}
+		}
+	}
 	for n := 0; n < 200; n++ { // long garbage: no panic, offset inside
 		c04Judge(c, strings.Repeat("q", n), "length")
 		c04Judge(c, "a1"+strings.Repeat("q", n), "length")
